@@ -17,6 +17,7 @@ type Pool struct {
 
 	IncTimeout    time.Duration // incremental attempt of a verdict query before fresh processes are used
 	OneShots      int
+	incTimeouts   int
 	StringQueries int
 	StringWall    time.Duration
 	FeasTimeout   time.Duration
@@ -53,6 +54,7 @@ func (pl *Pool) Close() {
 
 func (pl *Pool) Reset(bank *Bank) {
 	pl.Bank = bank
+	pl.incTimeouts = 0
 	for _, p := range pl.Procs {
 		p.Reset(bank)
 	}
@@ -73,7 +75,20 @@ func (pl *Pool) Feasible(asserts []*Term, wantModel bool) (Verdict, *Model) {
 		return pl.stringQuery(asserts, wantModel, pl.FeasTimeout*2)
 	}
 	for i, p := range pl.Procs {
-		v, m := p.Check(asserts, pl.FeasTimeout, wantModel)
+		var v Verdict
+		var m *Model
+		if i == 0 && pl.incTimeouts >= 3 {
+			v = Unknown // incremental mode keeps timing out on this instance: go to a fresh process at once
+		} else {
+			to := pl.FeasTimeout
+			if i == 0 {
+				to = pl.FeasTimeout / 3
+			}
+			v, m = p.Check(asserts, to, wantModel)
+			if v == Unknown && i == 0 {
+				pl.incTimeouts++
+			}
+		}
 		if v != Unknown {
 			if i > 0 {
 				pl.Fallbacks++
@@ -142,6 +157,9 @@ func (pl *Pool) Decide(asserts []*Term, wantModel bool) (Verdict, *Model) {
 	if n > 2 {
 		n = 2
 	}
+	if pl.incTimeouts >= 3 {
+		n = 0 // this instance's queries are of the kind incremental mode is slow on: fresh processes at once
+	}
 	ch := make(chan ans, n)
 	for i, p := range pl.Procs[:n] {
 		go func(i int, p *Proc) {
@@ -190,6 +208,9 @@ loop:
 	for got < n {
 		<-ch
 		got++
+	}
+	if first == nil && n > 0 {
+		pl.incTimeouts++
 	}
 	if first == nil && len(pl.Disagreements) == 0 {
 		// fresh non-incremental processes, all solvers at once
